@@ -22,7 +22,10 @@ EXTRA_ENTRY_MODULES = ['enspara/cluster/kcenters.py', 'enspara/cluster/kmedoids.
                        'enspara/cluster/hybrid.py', 'enspara/msm/libmsm.pyx',
                        'enspara/msm/msm.py', 'enspara/msm/timescales.py',
                        'enspara/msm/synthetic_data.py', 'enspara/cards/disorder.py',
-                       'enspara/geometry/rotamer.py', 'enspara/mpi/ops.py']
+                       'enspara/geometry/rotamer.py', 'enspara/mpi/ops.py',
+                       # numerical routine outside the anchors whose argument is an md.Trajectory of MSM centres
+                       # (finding rmsf-superpose-inplace: Trajectory.superpose works in place and returns self)
+                       'enspara/geometry/rmsf.py']
 
 # modules outside the property's anchors whose helpers store into their
 # arguments by design (not triaged against a documented contract): swept in
@@ -418,6 +421,88 @@ def d4_effects(ck, rels, observe_only=False):
     return 0
 
 
+# third-party callables that modify their ARGUMENTS in place (documented by
+# mdtraj: "rmsd(target, reference, ...): Note, this will center the
+# conformations in place" unless precentered=True; with atom_indices it works
+# on copies).  Handing such a callable out as a metric makes every routine
+# that applies the metric to its own parameter an in-place routine.
+INPLACE_CALLABLES = {
+    'md.rmsd': 'mdtraj.rmsd centres `target` and `reference` in place (unless precentered=True or atom_indices is given)',
+    'mdtraj.rmsd': 'mdtraj.rmsd centres `target` and `reference` in place (unless precentered=True or atom_indices is given)',
+}
+CLUSTER_ENTRY = ['enspara/cluster/util.py', 'enspara/cluster/kcenters.py', 'enspara/cluster/kmedoids.py', 'enspara/cluster/hybrid.py']
+
+
+def _inplace_callable(e):
+    """name of the in-place third-party callable the expression denotes as a
+    function OBJECT (bare name, or functools.partial of it that does not
+    switch the in-place behaviour off), else None."""
+    from ..core import dotted
+    if isinstance(e, ast.Attribute) and (dotted(e) or '') in INPLACE_CALLABLES:
+        return dotted(e)
+    if isinstance(e, ast.Call) and (call_name(e) or '').split('.')[-1] == 'partial' and e.args:
+        inner = _inplace_callable(e.args[0])
+        if inner and not (const_value(kwarg(e, 'precentered')) is True if kwarg(e, 'precentered') is not None else False) \
+                and kwarg(e, 'atom_indices') is None:
+            return inner
+    return None
+
+
+def d4_inplace_metric(ck):
+    """The metric factory of the clustering layer must not hand out a callable
+    that edits its arguments: the clusterers apply the metric to the caller's
+    trajectory (finding rmsd-metric-recentres-traj)."""
+    rule = 'C19.D4.no-arg-mutation.inplace-metric'
+    mod = ck.repo.mod('enspara/cluster/util.py')
+    F = '_get_distance_method'
+    fn = mod.functions.get(F)
+    if fn is None:
+        ck.missing(rule, 'function %s in %s' % (F, mod.rel))
+        return 0
+    ck.analysed(mod, fn)
+    sources = []
+    rets = [r for r in walk_local(fn) if isinstance(r, ast.Return) and r.value is not None]
+    for r in rets:
+        nm = _inplace_callable(r.value)
+        if nm:
+            sources.append((r, nm))
+    if not rets:
+        ck.missing(rule, 'return statements of %s' % F)
+        return 0
+    # consumers: public clustering routines that obtain a metric from the factory and apply it (or pass it on
+    # together with) one of their own parameters
+    consumers = []
+    for rel in CLUSTER_ENTRY:
+        m2 = ck.repo.mod(rel)
+        for q, f2 in public_functions(m2):
+            ps = set(params(f2)) - {'self', 'cls'}
+            got = set()
+            for st in walk_local(f2):
+                if isinstance(st, ast.Assign) and isinstance(st.value, ast.Call) and (call_name(st.value) or '').split('.')[-1] == F:
+                    got.update(target_names(st.targets[0]))
+            if not got:
+                continue
+            for c in walk_local(f2):
+                if not isinstance(c, ast.Call):
+                    continue
+                argn = {a.id for a in list(c.args) + [k.value for k in c.keywords] if isinstance(a, ast.Name)}
+                if (isinstance(c.func, ast.Name) and c.func.id in got and argn & ps) or (argn & got and argn & ps):
+                    consumers.append('%s::%s' % (rel, q))
+                    break
+    for r, nm in sources:
+        if consumers:
+            ck.bad(rule, mod, r, F, 'the metric factory returns the bare in-place callable %s' % nm,
+                   '%s; %d public clustering routines obtain their metric from %s and apply it to (or pass it on with) their own trajectory '
+                   'parameter (%s): with this metric they re-centre the caller\'s trajectory in place - X.xyz is translated frame by frame, a '
+                   'repeated call starts from different bits - and none of them documents it'
+                   % (INPLACE_CALLABLES[nm], len(consumers), F, ', '.join(consumers[:6])), ', '.join(consumers))
+        else:
+            ck.missing(rule, 'no public clustering routine found that applies the metric returned by %s' % F)
+    if not sources:
+        ck.ok(rule, mod, fn, '%s: %d returns' % (F, len(rets)), 'no returned metric is a third-party callable known to edit its arguments in place')
+    return len(rets)
+
+
 def d6_globals(ck, rels):
     rule = 'C19.D6.module-state'
     allowed = {('enspara/util/load.py', '_init'): 'worker-side shared-array hand-over',
@@ -790,6 +875,8 @@ def check(ck):
     rels = ANCHORED + EXTRA_ENTRY_MODULES
     n4 = d4_effects(ck, rels)
     ck.floor('C19.D4.no-arg-mutation', n4, 150, '(function, parameter) pairs')
+    nm = d4_inplace_metric(ck)
+    ck.floor('C19.D4.no-arg-mutation.inplace-metric', nm, 1, 'returns of the metric factory')
     for (rel, q), why in PRIVATE_INPLACE_HELPERS.items():
         ck.assume('%s::%s writes its parameters by design: %s' % (rel, q, why))
     if thorough:
